@@ -20,9 +20,10 @@ from ..translate import c09_schema as tr
 
 PID = "C09"
 ALLOWED_AXIOMS = set()
-EXTRA_TARGETS = ["Model/C09Check.vo"]
+EXTRA_TARGETS = ["Model/C09Check.vo", "Model/SchemaTrans.vo"]
 REQ = ["QV.Common.Outcome", "QV.Common.JsonS", "QV.Model.QCSchema", "QV.Gen.Schemas", "QV.Gen.FieldTypes",
        "QV.Gen.ToSchemaGen", "QV.Model.SchemaMol", "QV.Model.C09Check"]
+REQ_TRANS = ["QV.Common.Outcome", "QV.Model.MolRec", "QV.Gen.ToSchemaGen", "QV.Gen.SchemaKeys", "QV.Model.SchemaTrans"]
 BOHR2ANG = (0.52917721067, 0.529177210903)  # CODATA 2014 / 2018, independent of the code under test
 
 _STATE = {"translate_ok": False}
@@ -30,6 +31,10 @@ _STATE = {"translate_ok": False}
 
 def translate(ctx):
     _STATE["translate_ok"] = False
+    # Model/SchemaTrans.v builds on C04's Model/MolRec.v: its generated inputs (Gen/PTable.v, Gen/MolConsts.v) must exist
+    # and be current also when C09 is run alone on a fresh tree
+    from . import c04
+    c04.translate(ctx)
     res = tr.generate(ctx.repo)
     # ndarray fields without a shape-guarding validator, as the translator reads them from the validators' source
     _STATE["unguarded"] = {(m, a) for m, a, g in res["array_fields"] if not g}
@@ -75,6 +80,7 @@ def _drop_key(s, key):
 
 
 _SCHEMAS = {}
+_SCHEMA_TEXT = {}
 DRAFT4 = "http://json-schema.org/draft-04/schema#"
 
 
@@ -96,6 +102,7 @@ def schema_of(name):
         d4 = jsonschema.validators.extend(jsonschema.Draft4Validator, validators={"pattern": pattern_ecma})
         # (a nested "$schema" makes jsonschema switch back to its stock class for that subtree: drop the annotation)
         s4 = _drop_key(s, "$schema")
+        _SCHEMA_TEXT[name] = json.dumps(s, sort_keys=True)
         _SCHEMAS[name] = (s, d4(s4), d4(strip_unique_schema(s4)), own(s))
     return _SCHEMAS[name]
 
@@ -230,7 +237,8 @@ def schema_trip(m0, tag):
         want_g = [g0 * m0["input_units_to_au"]] if "input_units_to_au" in m0 else [g0 / b for b in BOHR2ANG]
     seps = [int(x) for x in m0["fragment_separators"]]
     bounds = [0] + seps + [nat]
-    want_frags = [list(range(bounds[i], bounds[i + 1])) for i in range(len(bounds) - 1)]
+    idx = list(range(nat))
+    want_frags = [idx[bounds[i]:bounds[i + 1]] for i in range(len(bounds) - 1)]    # numpy splits by slicing (negative separators count from the end)
     hashes = set()
     core = None
     for v in (1, 2):
@@ -341,6 +349,8 @@ def input_kept(kw, mol):
            ("atom_labels", lambda: [str(x) for x in mol.atom_labels], lambda v: [str(x) for x in v]),
            ("fragments", lambda: [[int(i) for i in f] for f in mol.fragments], lambda v: [[int(i) for i in f] for f in v]),
            ("connectivity", lambda: _conn(mol.connectivity), lambda v: _conn([(min(a, b), max(a, b), o) for a, b, o in v])),
+           ("fragment_charges", lambda: [float(x) for x in mol.fragment_charges], lambda v: [float(x) for x in v]),
+           ("fragment_multiplicities", lambda: [int(x) for x in mol.fragment_multiplicities], lambda v: [int(x) for x in v]),
            ("molecular_charge", lambda: float(mol.molecular_charge), float),
            ("molecular_multiplicity", lambda: int(mol.molecular_multiplicity), int),
            ("fix_com", lambda: bool(mol.fix_com), bool), ("fix_orientation", lambda: bool(mol.fix_orientation), bool),
@@ -513,7 +523,60 @@ def pick_mass(rng, sym):
     return round(m0 * rng.choice([1.0005, 0.9995]), 6)
 
 
+# open-shell atoms and the multiplicities they can carry as neutral one-atom fragments (charge -> multiplicities for ions below)
+OPEN_SHELL = {"H": [2], "Li": [2], "N": [4, 2], "O": [3, 1], "F": [2], "Na": [2], "Cl": [2], "C": [3, 1], "Br": [2]}
+IU_BASE = 1.0 / 0.52917721067
+IU_SPREAD = [0.0, 1e-9, -1e-9, 0.005, -0.005, 0.019, -0.019, 0.021, -0.021, 0.026, -0.026, 0.012, -0.0234]
+
+
+def pick_iutau(rng):
+    """input_units_to_au for an Angstrom record, spread over the whole window from_arrays accepts (|x - 1/bohr2angstroms| < 0.05)"""
+    return IU_BASE * (1.0 + rng.choice(IU_SPREAD))
+
+
+def open_shell_fragments(rng, nmax=3):
+    """one-atom open-shell fragments with their own multiplicities (and sometimes charges) and a total multiplicity that is
+    NOT necessarily the high-spin one: low-spin and intermediate couplings, ionic pairs with zero or non-zero total charge.
+    Returns (symbols, fragment sizes, fragment charges, fragment multiplicities, total charge, total multiplicity)."""
+    nfr = rng.randint(2, nmax)
+    syms, fchg, fmult = [], [], []
+    for _ in range(nfr):
+        el = rng.choice(sorted(OPEN_SHELL))
+        q = 0
+        m = rng.choice(OPEN_SHELL[el])
+        r = rng.random()
+        if r < 0.15 and el in ("Li", "Na"):
+            q, m = 1, 1            # closed-shell cation
+        elif r < 0.3 and el in ("F", "Cl", "Br"):
+            q, m = -1, 1           # closed-shell anion
+        elif r < 0.2 and el == "O":
+            q, m = rng.choice([(1, 4), (1, 2), (-1, 2)])
+        syms.append(el)
+        fchg.append(q)
+        fmult.append(m)
+    hi = sum(m - 1 for m in fmult) + 1
+    feasible = list(range(hi, 0, -2))            # same parity as high spin, down to 1 or 2
+    tot = rng.choice(feasible + feasible[-1:] * 2 + feasible[1:2])      # favour low-spin / intermediate
+    return syms, fchg, fmult, sum(fchg), tot
+
+
+def gen_molecule_open_shell(rng):
+    syms, fchg, fmult, chg, mult = open_shell_fragments(rng)
+    nat = len(syms)
+    geom = [[0.0, 0.0, 6.0 * i + rng.choice([0.0, 0.25, -0.5])] for i in range(nat)]
+    kw = {"symbols": syms, "geometry": [c for p_ in geom for c in p_], "fragments": [[i] for i in range(nat)],
+          "fragment_multiplicities": fmult, "molecular_multiplicity": mult}
+    if any(fchg) or rng.random() < 0.5:
+        kw["fragment_charges"] = [float(q) for q in fchg]
+        kw["molecular_charge"] = float(chg)
+    if rng.random() < 0.3:
+        kw["name"] = rword(rng, 6)
+    return kw
+
+
 def gen_molecule_kwargs(rng, nmax=6):
+    if nmax >= 3 and rng.random() < 0.15:
+        return gen_molecule_open_shell(rng)
     nat = rng.randint(1, nmax)
     syms = [rng.choice(ELEMS) for _ in range(nat)]
     if rng.random() < 0.2:
@@ -638,13 +701,29 @@ def gen_molecule_text(rng):
     return "\n".join(lines), (coords if ang else None)
 
 
+def gen_molrec_open_shell(rng):
+    syms, fchg, fmult, chg, mult = open_shell_fragments(rng)
+    nat = len(syms)
+    kw = {"elem": syms, "geom": [c for i in range(nat) for c in (0.0, 0.0, 6.0 * i + rng.choice([0.0, 0.25, -0.5]))],
+          "units": rng.choice(["Bohr", "Bohr", "Angstrom"]), "fragment_separators": list(range(1, nat)),
+          "fragment_multiplicities": fmult, "molecular_multiplicity": mult}
+    if kw["units"] == "Angstrom" and rng.random() < 0.5:
+        kw["input_units_to_au"] = pick_iutau(rng)
+    if any(fchg) or rng.random() < 0.5:
+        kw["fragment_charges"] = [float(q) for q in fchg]
+        kw["molecular_charge"] = float(chg)
+    return kw
+
+
 def gen_molrec_arrays(rng):
     """keyword arguments of molparse.from_arrays: a molrec that does not come from from_schema"""
+    if rng.random() < 0.2:
+        return gen_molrec_open_shell(rng)
     nat = rng.randint(1, 5)
     syms = [rng.choice(ELEMS) for _ in range(nat)]
     kw = {"elem": syms, "geom": [c for p in grid_points(rng, nat) for c in p], "units": rng.choice(["Bohr", "Bohr", "Angstrom"])}
-    if kw["units"] == "Angstrom" and rng.random() < 0.4:
-        kw["input_units_to_au"] = 1.0 / 0.52917721067
+    if kw["units"] == "Angstrom" and rng.random() < 0.6:
+        kw["input_units_to_au"] = pick_iutau(rng)
     r = rng.random()
     if r < 0.6:
         kw["mass"] = [pick_mass(rng, s) for s in syms]
@@ -975,11 +1054,30 @@ MUST_REJECT = [
 
 # molrecs whose masses are off the isotope table (average weights -> mass number -1), explicit isotopes, ghost with a mass
 MOLREC_CORPUS = [
+    # open-shell fragments coupled low-spin / intermediate (the totals must survive the translation), ionic pair
+    {"elem": ["H", "H"], "geom": [0, 0, 0, 0, 0, 6.0], "units": "Bohr", "fragment_separators": [1], "fragment_multiplicities": [2, 2],
+     "molecular_multiplicity": 1},
+    {"elem": ["O", "O"], "geom": [0, 0, 0, 0, 0, 8.0], "units": "Bohr", "fragment_separators": [1], "fragment_multiplicities": [3, 3],
+     "molecular_multiplicity": 3},
+    {"elem": ["N", "H", "Li"], "geom": [0, 0, 0, 0, 0, 3.0, 0, 0, 6.0], "units": "Angstrom", "fragment_separators": [1, 2],
+     "fragment_multiplicities": [4, 2, 2], "molecular_multiplicity": 2},
+    {"elem": ["Na", "Cl"], "geom": [0, 0, 0, 0, 0, 5.0], "units": "Bohr", "fragment_separators": [1], "fragment_charges": [1.0, -1.0],
+     "fragment_multiplicities": [1, 1], "molecular_charge": 0.0},
+    # Angstrom records whose own input_units_to_au is near the edges of the window from_arrays accepts
+    {"elem": ["He", "Ne"], "geom": [0, 0, 0, 0, 0, 3.0], "units": "Angstrom", "input_units_to_au": IU_BASE * 1.026},
+    {"elem": ["He", "Ne"], "geom": [0.5, 0, 0, 0, 0, 3.0], "units": "Angstrom", "input_units_to_au": IU_BASE * (1 - 0.0234)},
     {"elem": ["O", "H", "H"], "geom": [0, 0, 0, 0, 0, 1.8, 0, 1.7, -0.5], "mass": [15.999, 1.008, 1.008], "units": "Bohr"},
     {"elem": ["O", "H", "H"], "geom": [0, 0, 0, 0, 0, 0.96, 0, 0.93, -0.3], "mass": [15.999, 2.0141, 1.008], "units": "Angstrom"},
     {"elem": ["C", "H"], "geom": [0, 0, 0, 0, 0, 2.0], "elea": [13, 2], "units": "Bohr"},
     {"elem": ["He", "Ne"], "geom": [0, 0, 0, 0, 0, 5.0], "mass": [4.0026, 20.18], "real": [True, False], "fragment_separators": [1],
      "units": "Bohr"},
+]
+
+# from_arrays accepts negative separators (numpy reads them as slice indices) and keeps them; the round trip returns the
+# non-negative equivalents (known finding C09-negative-separators, theorem C09_roundtrip_negative_separators_refuted)
+KNOWN_MOLREC_PROBES = [
+    {"elem": ["He", "He", "He"], "geom": [0, 0, 0, 0, 0, 3, 0, 0, 6], "units": "Bohr", "fragment_separators": [-1]},
+    {"elem": ["He", "Ne", "He", "Ar"], "geom": [0, 0, 0, 0, 0, 3, 0, 0, 6, 0, 3, 0], "units": "Angstrom", "fragment_separators": [-3, 2]},
 ]
 
 CORPUS = [
@@ -993,6 +1091,10 @@ CORPUS = [
     {"model": "Molecule", "kwargs": {"symbols": ["C", "H"], "geometry": [0, 0, 0, 0, 0, 2.0], "mass_numbers": [13, 2]}},
     {"model": "Molecule", "from_data": "O@15.999 0 0 0\nH@1.008 0 0 0.96\n--\nGh(He@4.0026) 0 0 3.0\nunits angstrom", "dtype": "psi4",
      "angstrom_coords": [[0, 0, 0], [0, 0, 0.96], [0, 0, 3.0]]},
+    {"model": "Molecule", "kwargs": {"symbols": ["H", "H"], "geometry": [0, 0, 0, 0, 0, 6.0], "fragments": [[0], [1]],
+                                     "fragment_multiplicities": [2, 2], "molecular_multiplicity": 1}},
+    {"model": "Molecule", "kwargs": {"symbols": ["O", "O"], "geometry": [0, 0, 0, 0, 0, 8.0], "fragments": [[0], [1]],
+                                     "fragment_multiplicities": [3, 3], "molecular_multiplicity": 3}},
     {"model": "Provenance", "kwargs": {"creator": "x"}},
     {"model": "BasisSet", "kwargs": _basis([SHELL0, {"angular_momentum": [0, 1], "harmonic_type": "cartesian", "exponents": ["0.5", 3.0],
                                                       "coefficients": [[1, 2], [3, 4]]}], [ECP0])},
@@ -1160,7 +1262,7 @@ def factor_cases(rng, n):
         m["units"] = mu
         iu = None
         if rng.random() < 0.6:
-            iu = rng.choice([1.0 / 0.52917721067, 1.8897261, 1.88972612462, 2.0])
+            iu = rng.choice([1.0 / 0.52917721067, 1.8897261, 1.88972612462, 2.0, pick_iutau(rng), pick_iutau(rng), pick_iutau(rng)])
             m["input_units_to_au"] = iu
         dt = rng.choice([1, 2, "psi4"])
         try:
@@ -1174,13 +1276,306 @@ def factor_cases(rng, n):
     return out
 
 
-def run_cases(tag, fn, terms, shard, ty):
+# ------------------------------------------------------------------------------------------------
+# whole-record translation: to_schema / from_schema against Model/SchemaTrans.v (on C04's molrec model)
+
+def _dec(x):
+    """exact decimal reading of a float's shortest repr (the convention of the C04 model: from_arrays only compares)"""
+    from decimal import Decimal
+    return cq(Fraction(Decimal(repr(float(x)))))
+
+
+def _zint(x):
+    f = float(x)
+    if not f.is_integer():
+        raise ValueError("non-integer charge / multiplicity is outside the modelled domain")
+    return coqrun.cz(int(f))
+
+
+def _some(v, f):
+    return "None" if v is None else f"(Some {f(v)})"
+
+
+def canon_molrec(r):
+    """molrec dict -> canonical JSON-able record (fields of Model/MolRec.v molrec)"""
+    return {"units": str(r["units"]), "iutau": (float(r["input_units_to_au"]) if "input_units_to_au" in r else None),
+            "geom": [float(x) for x in np.asarray(r["geom"], dtype=float).reshape(-1)], "elea": [int(x) for x in r["elea"]],
+            "elez": [int(x) for x in r["elez"]], "elem": [str(x) for x in r["elem"]], "mass": [float(x) for x in r["mass"]],
+            "real": [bool(x) for x in r["real"]], "elbl": [str(x) for x in r["elbl"]],
+            "seps": [int(x) for x in r["fragment_separators"]], "fchg": [float(x) for x in r["fragment_charges"]],
+            "fmult": [float(x) for x in r["fragment_multiplicities"]], "chg": float(r["molecular_charge"]),
+            "mult": float(r["molecular_multiplicity"]), "fix_com": bool(r["fix_com"]), "fix_orientation": bool(r["fix_orientation"]),
+            "fix_symmetry": r.get("fix_symmetry"),
+            "conn": ([(int(a), int(b), float(o)) for a, b, o in r["connectivity"]] if "connectivity" in r else None)}
+
+
+def cconn(c):
+    return clist(c, lambda t: f"({coqrun.cz(int(t[0]))}, {coqrun.cz(int(t[1]))}, {_dec(t[2])})")
+
+
+def cmolrec(c):
+    return "(Build_molrec %s %s %s %s %s %s %s %s %s %s %s %s %s %s %s %s %s %s)" % (
+        cstr(c["units"]), _some(c["iutau"], _dec), clist(c["geom"], _dec), clist(c["elea"], coqrun.cz), clist(c["elez"], coqrun.cz),
+        clist(c["elem"], cstr), clist(c["mass"], _dec), clist(c["real"], cbool), clist(c["elbl"], cstr), clist(c["seps"], coqrun.cz),
+        clist(c["fchg"], _zint), clist(c["fmult"], _zint), _zint(c["chg"]), _zint(c["mult"]), cbool(c["fix_com"]),
+        cbool(c["fix_orientation"]), _some(c["fix_symmetry"], cstr), _some(c["conn"], cconn))
+
+
+def csmol(ms):
+    """the molecule keys of a schema dictionary -> Build_schema_mol (None = key absent)"""
+    def arr(key, f):
+        if key not in ms:
+            return "None"
+        v = ms[key]
+        v = np.asarray(v).reshape(-1).tolist() if key == "geometry" else list(v)
+        return "(Some " + clist(v, f) + ")"
+
+    def sc(key, f):
+        return "None" if key not in ms else f"(Some {f(ms[key])})"
+    frs = "None" if "fragments" not in ms else "(Some " + clist(ms["fragments"], lambda fr: clist([int(i) for i in fr], coqrun.cz)) + ")"
+    return "(Build_schema_mol %s %s %s %s %s %s %s %s %s %s %s %s %s %s %s %s %s)" % (
+        arr("symbols", lambda x: cstr(str(x))), arr("geometry", _dec), arr("masses", _dec), arr("atomic_numbers", lambda x: coqrun.cz(int(x))),
+        arr("mass_numbers", lambda x: coqrun.cz(int(x))), arr("atom_labels", lambda x: cstr(str(x))), arr("real", lambda x: cbool(bool(x))),
+        frs, arr("fragment_charges", _zint), arr("fragment_multiplicities", _zint), sc("molecular_charge", _zint),
+        sc("molecular_multiplicity", _zint), sc("fix_com", lambda x: cbool(bool(x))), sc("fix_orientation", lambda x: cbool(bool(x))),
+        sc("fix_symmetry", cstr), sc("connectivity", cconn), sc("validated", lambda x: cbool(bool(x))))
+
+
+def cdoc(s):
+    name, ver = s.get("schema_name"), s.get("schema_version")
+    if not (name is None or isinstance(name, str)) or not (ver is None or (type(ver) is int)):
+        raise ValueError("header outside the modelled domain")
+    nested = s.get("molecule")
+    return "(Build_schema_doc %s %s %s %s)" % (_some(name, cstr), _some(ver, coqrun.cz), csmol(s),
+                                                 "None" if nested is None else f"(Some {csmol(nested)})")
+
+
+EK9 = {"ValidationError": "Validation", "NotAnElementError": "NotAnElement", "KeyError": "PyKeyError", "IndexError": "PyIndexError",
+       "ValueError": "PyValueError", "TypeError": "PyTypeError", "AttributeError": "PyAttributeError"}
+
+
+def impl_from_schema(doc):
+    import contextlib
+    import io
+    from qcelemental.molparse import from_schema
+    try:
+        with contextlib.redirect_stdout(io.StringIO()):
+            r = from_schema(copy.deepcopy(doc))
+    except Exception as e:
+        return ("Err", type(e).__name__)
+    return ("Ok", canon_molrec(r))
+
+
+def cout(out, f):
+    if out[0] == "Ok":
+        return f"(Ok {f(out[1])})"
+    return f"(Err {EK9.get(out[1], 'PyAssertion')})"
+
+
+SCHEMA_NAMES = ["qcschema_molecule", "qcschema_input", "qc_schema_input", "qcschema", "qc_schema", "QCSchema_input", "", "schema",
+                "qcschema_output", "qcschema_moleculex", "qcschema_mol", "qc_schem", " qcschema_input"]
+
+
+def damage(rng, doc):
+    """one realistic damage to an exported schema dictionary (JSON-able form); returns (what, damaged)"""
+    d = copy.deepcopy(doc)
+    ms = d["molecule"] if "molecule" in d else d
+    nat = len(ms["symbols"])
+    k = rng.randint(0, 15)
+    if k == 0:
+        d["schema_name"] = rng.choice(SCHEMA_NAMES)
+        return "schema_name", d
+    if k == 1:
+        d["schema_version"] = rng.choice([1, 2, 3, 0])
+        return "schema_version", d
+    if k == 2:
+        d.pop(rng.choice(["schema_name", "schema_version"]), None)
+        return "header_key_removed", d
+    if k == 3:
+        d["schema_name"], d["schema_version"] = rng.choice(SCHEMA_NAMES), rng.choice([1, 2])
+        return "header_both", d
+    if k == 4:
+        ms.pop("fragments", None)
+        for key in ("fragment_charges", "fragment_multiplicities"):
+            if rng.random() < 0.7:
+                ms.pop(key, None)
+        return "fragments_removed", d
+    if k == 5:
+        idx = list(range(nat))
+        rng.shuffle(idx)
+        ms["fragments"] = [idx[:1], idx[1:]] if nat > 1 else [idx]
+        return "fragments_shuffled", d
+    if k == 6:
+        ms["fragments"] = rng.choice([[], [[]], [list(range(nat)), []], [list(range(1, nat + 1))], [list(range(nat - 1))] if nat > 1 else [[0, 1]],
+                                      [list(range(nat)) + [nat]], [[0] * nat], [[i] for i in range(nat)][::-1], [list(range(nat))[::-1]]])
+        return "fragments_odd", d
+    if k == 7:
+        key = rng.choice(["masses", "atomic_numbers", "mass_numbers", "atom_labels", "real", "symbols"])
+        if key in ms and len(ms[key]):
+            ms[key] = list(ms[key]) + [ms[key][-1]] if rng.random() < 0.5 else list(ms[key])[:-1]
+        return "column_length", d
+    if k == 8:
+        g = list(np.asarray(ms["geometry"]).reshape(-1))
+        ms["geometry"] = g[:-1] if rng.random() < 0.5 else g + [9.5] * rng.choice([1, 3])
+        return "geometry_length", d
+    if k == 9:
+        ms.pop(rng.choice(["geometry", "symbols", "masses", "real", "atomic_numbers", "mass_numbers", "atom_labels", "molecular_charge",
+                           "molecular_multiplicity", "fix_com", "fix_orientation", "fragment_charges", "fragment_multiplicities", "validated"]), None)
+        return "key_removed", d
+    if k == 10:
+        i = rng.randrange(nat)
+        which = rng.choice(["symbols", "mass_numbers", "atomic_numbers"])
+        col = list(ms[which])
+        col[i] = {"symbols": rng.choice(["Xx", "He", "U"]), "mass_numbers": rng.choice([999, -1, 4]), "atomic_numbers": rng.choice([2, 92, 0])}[which]
+        ms[which] = col
+        return "nuclear_clue", d
+    if k == 11 and "fragments" in ms and len(ms["fragments"]) > 1:
+        fr = [list(f) for f in ms["fragments"]]
+        fr[0], fr[1] = fr[1], fr[0]
+        ms["fragments"] = fr
+        return "fragments_swapped", d
+    if k == 12 and "molecule" in d:
+        d.pop("molecule")
+        return "nested_removed", d
+    if k == 13 and "molecule" not in d:
+        d2 = {"schema_name": d["schema_name"], "schema_version": d["schema_version"], "molecule": {x: y for x, y in d.items() if x not in ("schema_name", "schema_version")}}
+        return "nested_instead_of_flat", d2
+    if k == 14:
+        ms["real"] = [not bool(x) for x in ms["real"]]
+        return "real_flipped", d
+    if k == 15 and nat > 1:
+        g = list(np.asarray(ms["geometry"]).reshape(-1))
+        g[3:6] = [g[0], g[1], g[2] + rng.choice([0.0, 0.05, 0.0999, 0.11])]
+        ms["geometry"] = g
+        return "atoms_close", d
+    return "none", d
+
+
+def trans_cases(ctx, corr):
+    """molrecs accepted by from_arrays (Bohr) through to_schema x {1,2} x np_out and back; damaged dictionaries through from_schema.
+    Returns the Gallina cases of check_trans / check_from_schema with their replay records."""
+    import contextlib
+    import io
+    from qcelemental.molparse import from_arrays, to_schema
+    rng = ctx.rng
+    tterms, tmeta, dterms, dmeta = [], [], [], []
+    n = 700 if ctx.thorough else 130
+    pool = [dict(a) for a in MOLREC_CORPUS if a.get("units") == "Bohr"]
+    for i in range(n):
+        arrays = pool[i] if i < len(pool) else gen_molrec_arrays(rng)
+        arrays = dict(arrays, units="Bohr")
+        arrays.pop("input_units_to_au", None)
+        if rng.random() < 0.15 and i >= len(pool):
+            arrays["input_units_to_au"] = rng.choice([1.0, 1.0000001])
+        try:
+            with contextlib.redirect_stdout(io.StringIO()):
+                m0 = from_arrays(speclabel=False, verbose=0, **copy.deepcopy(arrays))
+        except Exception:
+            corr.hit("trans_molrec_refused")
+            continue
+        try:
+            mterm = cmolrec(canon_molrec(m0))
+        except ValueError:
+            corr.hit("trans_outside_model_domain")
+            continue
+        for v in (1, 2):
+            np_out = rng.random() < 0.5
+            try:
+                s = to_schema(m0, dtype=v, np_out=np_out)
+                exported = ("Ok", s)
+            except Exception as e:
+                exported = ("Err", type(e).__name__)
+            back = impl_from_schema(s) if exported[0] == "Ok" else ("Err", "ValidationError")
+            try:
+                tterms.append(f"({mterm}, {coqrun.cz(v)}, {cout(exported, cdoc)}, {cout(back, cmolrec)})")
+            except ValueError:
+                corr.hit("trans_outside_model_domain")
+                continue
+            tmeta.append({"molrec": arrays, "dtype": v, "np_out": np_out})
+            corr.count("trans")
+            corr.hit(f"trans_v{v}_" + ("np" if np_out else "list"))
+            corr.hit("trans_back_" + (back[0] if back[0] == "Ok" else back[1]))
+            if exported[0] != "Ok":
+                continue
+            sj = to_schema(m0, dtype=v, np_out=False)
+            for _ in range(3 if ctx.thorough else 2):
+                what, dd = damage(rng, sj)
+                if what == "none":
+                    continue
+                out = impl_from_schema(dd)
+                try:
+                    dterms.append(f"({cdoc(dd)}, {cout(out, cmolrec)})")
+                except (ValueError, TypeError, KeyError):
+                    corr.hit("damaged_outside_model_domain")
+                    continue
+                dmeta.append({"schema": dd, "damage": what})
+                corr.count("damaged-schema")
+                corr.hit("damage_" + what)
+                corr.hit("damaged_" + (out[0] if out[0] == "Ok" else out[1]))
+    return tterms, tmeta, dterms, dmeta
+
+
+# ------------------------------------------------------------------------------------------------
+# histories: several observations on ONE live instance must each equal the same observation on a fresh twin
+
+HISTORY_CALLS = ["emitted", "dict", "dict_json", "json", "serialize_json", "schema", "hash", "emitted_copy", "dict_exclude"]
+
+
+def _observe(inst, call):
+    if call == "emitted":
+        return json.loads(emitted(inst))
+    if call == "dict":
+        return inst.dict()
+    if call == "dict_json":
+        return inst.dict(encoding="json")
+    if call == "json":
+        return json.loads(inst.json())
+    if call == "serialize_json":
+        return json.loads(inst.serialize("json"))
+    if call == "schema":
+        return json.loads(json.dumps(type(inst).schema(), sort_keys=True))
+    if call == "hash":
+        return inst.get_hash() if hasattr(inst, "get_hash") else None
+    if call == "emitted_copy":
+        return json.loads(emitted(inst.copy()))
+    if call == "dict_exclude":
+        return inst.dict(exclude={"provenance", "extras"})
+    raise ValueError(call)
+
+
+def history_oracle(recipe, calls):
+    """run `calls` in order on one live instance; each answer must equal the answer of a fresh twin that saw nothing else"""
+    import contextlib
+    import io
+    with contextlib.redirect_stdout(io.StringIO()):
+        try:
+            live = build(recipe)
+        except Exception as e:
+            raise Refused(f"{type(e).__name__}: {e}") from e
+        bad = []
+        for i, call in enumerate(calls):
+            try:
+                got = _observe(live, call)
+            except Exception as e:
+                got = ("raised", type(e).__name__, str(e)[:200])
+            try:
+                want = _observe(build(recipe), call)
+            except Exception as e:
+                want = ("raised", type(e).__name__, str(e)[:200])
+            if not _eq(got, want):
+                bad.append({"what": f"after {calls[:i]} on the same {recipe['model']} instance, {call} differs from {call} on a fresh instance",
+                            "observed": {"live": repr(got)[:600], "fresh": repr(want)[:600]}})
+                break
+    return bad
+
+
+def run_cases(tag, fn, terms, shard, ty, req=None):
     """eval_bad_indices, re-running (in smaller shards) the shards whose coqc was killed without any output:
     out-of-memory kills and timeouts on an overloaded machine are not verdicts."""
     bad, errors = set(), []
     todo, size = list(range(len(terms))), shard
     for attempt in range(4):
-        b, e = coqrun.eval_bad_indices(tag + "r" * attempt, REQ, "", fn, [terms[i] for i in todo], shard=size, ty=ty, timeout=1800)
+        b, e = coqrun.eval_bad_indices(tag + "r" * attempt, req or REQ, "", fn, [terms[i] for i in todo], shard=size, ty=ty, timeout=1800)
         bad |= {todo[i] for i in b}
         again = []
         for k, out in e:
@@ -1270,6 +1665,28 @@ def correspond(ctx):
                     corr.hit("reject_" + str(e.validator))
             json_terms.append(f"({cstr(name)}, {jt}, {cbool(ok)})")
             json_meta.append((name, md, ok))
+    # histories on one live object (a memo keyed too coarsely, state left behind by an earlier call)
+    hist_pool = [rc for st, rc in recipes if "kwargs" in rc or "from_data" in rc]
+    for _ in range(900 if ctx.thorough else 150):
+        rc = rng.choice(hist_pool)
+        calls = [rng.choice(HISTORY_CALLS) for _ in range(rng.randint(3, 6))]
+        try:
+            probs = history_oracle(rc, calls)
+        except Refused:
+            continue
+        corr.count("history")
+        for c_ in calls:
+            corr.hit("history_" + c_)
+        for p_ in probs:
+            corr.failures.append({"stream": "history", "case": {"recipe": rc, "history": calls}, "what": p_["what"], "observed": p_["observed"]})
+    # the module-level singletons: Model.schema() is still what it was when first read
+    for name in tr.SIX:
+        corr.count("schema-stable")
+        first = _SCHEMA_TEXT.get(name)
+        now = json.dumps(models()[name].schema(), sort_keys=True)
+        if first is not None and first != now:
+            corr.failures.append({"stream": "schema-stable", "case": {"schema_of": name}, "what": f"{name}.schema() changed during the run",
+                                  "observed": {"first": first[:400], "now": now[:400]}})
     # known-finding probes (their schema failures are reported through `failures` and matched by KNOWN)
     for fid, rc, lax in KNOWN_PROBES:
         try:
@@ -1283,6 +1700,15 @@ def correspond(ctx):
         _, _, vstrip, _ = schema_of(rc["model"])
         inst_terms.append(cinst(rc["model"], lax, info["inst"], info["doc"], not info["errors"], vstrip.is_valid(info["doc"])))
         inst_meta.append(rc)
+    for arrays in KNOWN_MOLREC_PROBES:
+        try:
+            probs, _ = molrec_oracle(arrays)
+        except Refused:
+            corr.hit("known_probe_refused")
+            continue
+        corr.count("known-probes")
+        for p_ in probs:
+            corr.failures.append({"stream": "known-probes", "case": {"molrec": arrays}, "what": p_["what"], "observed": p_["observed"]})
     n_molrec = 2500 if ctx.thorough else 400
     for i in range(n_molrec + len(MOLREC_CORPUS)):
         arrays = MOLREC_CORPUS[i] if i < len(MOLREC_CORPUS) else gen_molrec_arrays(rng)
@@ -1348,13 +1774,19 @@ def correspond(ctx):
         if mu == "Angstrom" and u == "Bohr" and not any(abs(float(seen) * b - 1) < 1e-6 for b in BOHR2ANG) and iu is None:
             corr.failures.append({"stream": "factor", "case": {"units": mu, "requested": u, "iu2au": iu, "dtype": dt},
                                   "what": "Angstrom -> Bohr factor is not 1/bohr2angstroms", "observed": float(seen)})
+        if mu == "Angstrom" and u == "Bohr" and iu is not None and abs(iu - IU_BASE) < 0.05 and float(seen) != iu:
+            corr.failures.append({"stream": "factor", "case": {"units": mu, "requested": u, "iu2au": iu, "dtype": dt},
+                                  "what": "an Angstrom record's own input_units_to_au (inside the window from_arrays accepts) is not the factor "
+                                          "applied to its coordinates on export to Bohr", "observed": float(seen)})
         if mu == "Bohr" and u == "Bohr" and seen != 1:
             corr.failures.append({"stream": "factor", "case": {"units": mu, "requested": u, "iu2au": iu, "dtype": dt},
                                   "what": "Bohr -> Bohr export changed the coordinates", "observed": float(seen)})
         fterms.append(f"({lunit(mu)}, {lunit(u)}, {copt(None if iu is None else Fraction(iu), cq)}, {cq(conv)}, {cq(seen)})")
         fmeta.append({"units": mu, "requested": u, "iu2au": iu, "dtype": dt, "observed_factor": float(seen)})
+    tterms, tmeta, dterms, dmeta = trans_cases(ctx, corr)
     ctx.log(f"{built} instances built ({len(inst_terms)} distinct to the model), {len(json_terms)} mutated documents, "
-            f"{len(split_terms)} split cases, {len(fterms)} factor cases")
+            f"{len(split_terms)} split cases, {len(fterms)} factor cases, {len(tterms)} whole-record translations, "
+            f"{len(dterms)} damaged schema dictionaries")
     if not _STATE["translate_ok"]:
         corr.notes.append("translator failed: the Coq side of the correspondence was skipped (Gen files are stale)")
         return corr
@@ -1376,6 +1808,19 @@ def correspond(ctx):
     corr.errors.extend(f"split shard {k}: {e}" for k, e in errors)
     for b in bad[:6]:
         corr.disagreements.append({"stream": "split", "case": {"recipe": split_meta[b]}, "impl": split_terms[b], "model": "differs"})
+    bad, errors = run_cases("C09t", "check_trans", tterms, 60, "molrec * Z * outcome schema_doc * outcome molrec", req=REQ_TRANS)
+    corr.errors.extend(f"trans shard {k}: {e}" for k, e in errors)
+    for b in bad[:6]:
+        parts, _ = coqrun.eval_terms("C09t", REQ_TRANS, "", [f"let '(m, v, e, b) := {tterms[b]} in (to_schema_full m v Bohr 1, "
+                                                               f"match e with Ok d => from_schema_full false d | Err k => Err k end)"])
+        corr.disagreements.append({"stream": "trans", "case": tmeta[b], "impl": "to_schema / from_schema of the implementation (see replay)",
+                                   "model": ((parts or ["?"])[0])[:1500]})
+    bad, errors = run_cases("C09x", "check_from_schema", dterms, 60, "schema_doc * outcome molrec", req=REQ_TRANS)
+    corr.errors.extend(f"damaged-schema shard {k}: {e}" for k, e in errors)
+    for b in bad[:6]:
+        parts, _ = coqrun.eval_terms("C09x", REQ_TRANS, "", [f"from_schema_full false (fst {dterms[b]})"])
+        corr.disagreements.append({"stream": "damaged-schema", "case": dmeta[b], "impl": impl_from_schema(dmeta[b]["schema"])[:1] + (str(impl_from_schema(dmeta[b]["schema"])[1])[:600],),
+                                   "model": ((parts or ["?"])[0])[:1500]})
     bad, errors = run_cases("C09f", "check_factor", fterms, 500, "lunit * lunit * option Q * Q * Q")
     corr.errors.extend(f"factor shard {k}: {e}" for k, e in errors)
     for b in bad[:6]:
@@ -1435,6 +1880,13 @@ def search(ctx, corr, reasons):
                     r["what"] += " | incompatible sites: " + json.dumps(rep)[:1500]
     found = []
     for d in corr.disagreements:
+        if d["case"].get("molrec"):
+            try:
+                probs, _ = molrec_oracle(d["case"]["molrec"])
+            except Exception:
+                probs = []
+            for p in probs:
+                found.append({"stream": "search", "case": {"molrec": d["case"]["molrec"]}, "what": p["what"], "observed": p["observed"]})
         rc = d["case"].get("recipe")
         if rc:
             try:
@@ -1464,6 +1916,16 @@ def search(ctx, corr, reasons):
 
 def replay(ctx, rp):
     case = rp["case"]
+    if "recipe" in case and "history" in case:
+        try:
+            probs = history_oracle(case["recipe"], case["history"])
+        except Refused as e:
+            return {"fails": False, "note": f"the implementation refuses this input: {e}"[:300]}
+        return {"recipe": case["recipe"], "history": case["history"], "problems": probs, "fails": bool(probs)}
+    if "schema_of" in case:
+        a = json.dumps(models()[case["schema_of"]].schema(), sort_keys=True)
+        b = json.dumps(models()[case["schema_of"]].schema(), sort_keys=True)
+        return {"fails": a != b, "note": "Model.schema() read twice"}
     if "recipe" in case:
         try:
             probs, info = oracle(case["recipe"])
@@ -1493,8 +1955,10 @@ def replay(ctx, rp):
             out = float(np.asarray(g).reshape(-1)[0])
         except Exception as e:
             out = f"{type(e).__name__}"
+        iu = case.get("iu2au")
         bad = (case["dtype"] in (1, 2) and case["requested"] != "Bohr" and not isinstance(out, str)) or \
-              (case["units"] == "Bohr" and case["requested"] == "Bohr" and out != 1.0)
+              (case["units"] == "Bohr" and case["requested"] == "Bohr" and out != 1.0) or \
+              (case["units"] == "Angstrom" and case["requested"] == "Bohr" and iu is not None and abs(iu - IU_BASE) < 0.05 and out != iu)
         return {"case": case, "exported_x_of_unit_atom": out, "fails": bool(bad)}
     return {"fails": False, "note": "nothing to replay"}
 
@@ -1581,31 +2045,51 @@ def _known_scalar_array(f):
     return _all_errors(_errors_of(f), leaf_ok)
 
 
-KNOWN = {"C09-uniqueitems": _known_unique_shells, "C09-uniqueitems-ecp": _known_unique_ecp,
+def _known_negative_separators(f):
+    """only: the separators that came back are the non-negative equivalents of negative ones that from_arrays was given"""
+    arrays = (f.get("case") or {}).get("molrec") or {}
+    seps = arrays.get("fragment_separators")
+    if not seps or not any(isinstance(x, int) and x < 0 for x in seps) or "changed 'fragment_separators'" not in f.get("what", ""):
+        return False
+    import re
+    nat = len(arrays.get("elem") or [])
+    obs = f.get("observed") or {}
+    after = [int(x) for x in re.findall(r"-?\d+", re.sub(r"int64", "", str(obs.get("after", ""))))]
+    return after == [x if x >= 0 else x + nat for x in seps] and all(-nat < x < nat for x in seps)
+
+
+KNOWN = {"C09-negative-separators": _known_negative_separators, "C09-uniqueitems": _known_unique_shells, "C09-uniqueitems-ecp": _known_unique_ecp,
          "C09-scalar-array-0d": _known_scalar_array}
 
 TRUSTED = [
     "hand-written Gallina models: Common/JsonS.v (JSON values, draft-04 validator for the keyword subset in use, relation Valid), "
     "Model/QCSchema.v (pydantic.v1 field descriptors, values, emission with unset/None dropped and ndarrays flattened, compat), "
-    "Model/SchemaMol.v (np.split/cumsum index core and unit factor of to_schema/from_schema)",
-    "translator harness/translate/c09_schema.py (Model.schema() and __fields__ read at run time from the imported models; to_schema.py AST; fail closed)",
+    "Model/SchemaMol.v (np.split/cumsum index core and unit factor of to_schema/from_schema), Model/SchemaTrans.v (whole-record to_schema / "
+    "from_schema incl. contiguize_from_fragment_pattern(throw_reorder=True), on C04's Model/MolRec.v molrec and from_arrays)",
+    "translator harness/translate/c09_schema.py (Model.schema() and __fields__ read at run time from the imported models; to_schema.py and "
+    "from_schema.py ASTs -> unit branch, key tables, headers, recognition rules; from_arrays defaults from its signature; fail closed)",
     "pydantic.v1 validation ('a field declared with descriptor D holds an inhabitant of D') and json/jsonschema are modelled, not verified: "
     "checked on every generated instance (inhabitsb, emitted text == modelled emission, Gallina verdict == jsonschema verdict)",
     "regular expressions: only anchored literal alternations, read with ECMA semantics ('$' matches at the very end only)",
-    "from_arrays (validation of the rebuilt molrec) is not modelled here (C04/C06); the to_schema/from_schema theorems cover the fragment index core and the unit factor",
+    "C04's model of from_arrays (Model/MolRec.v, tied to the code by C04's own correspondence) is reused, and C04_idempotent is the main lemma of "
+    "the whole-record round trip; the record model of to_schema/from_schema is tied to the code by the pinned key tables (theorems over "
+    "Gen/SchemaKeys.v) and by differential execution of whole molrecs and damaged dictionaries (streams trans, damaged-schema)",
 ]
 ASSUMPTIONS = [
     "strings are latin-1, floats finite (NaN/inf are not JSON), dictionary keys are str",
     "Inh false: ndarray-typed fields hold arrays of at least one dimension (0-d arrays are the finding C09-scalar-array-0d: after e040dda only WavefunctionProperties.localized_fock_a/_b and Molecule(validate=False).atomic_numbers/mass_numbers/atom_labels)",
-    "fragment_separators are non-decreasing and within 0..nat (wf_seps), as from_arrays leaves them",
+    "index core: fragment_separators are non-decreasing and within 0..nat (wf_seps); whole-record round trip: the molrec was accepted by from_arrays "
+    "with tooclose / mtol / zero_ghost_fragments at from_arrays' defaults (the settings from_schema uses), is stored in Bohr, has at least one atom "
+    "and non-negative separators (forced by the proof: C09_roundtrip_negative_separators_refuted); charges and multiplicities are integers in "
+    "Model/MolRec.v; coordinates and masses are the exact decimals of the floats' shortest repr",
 ]
 TECHNIQUE = ("Coq proof: generic soundness of a descriptor-vs-schema checker (induction on fuel, all instances), instantiated per model by "
              "vm_compute on schemas/descriptors regenerated from the code on every run; validator proved sound and complete for a relational "
              "spec; differential correspondence against pydantic/jsonschema; oracle on the implementation")
 DESIGN_REF = "DESIGN.md §6 C09"
 LEVEL_TEXT = (
-    "Machine-checked (Coq 8.16.1), 30 theorems, all closed. Generic: C09_compatible_sound (if compat z accepts descriptor D against schema S "
-    "then the JSON emitted for EVERY inhabitant of D is Valid for S; z says whether plain ndarray fields may hold 0-d arrays; induction on "
+    "Machine-checked (Coq 8.16.1), 40 theorems, all closed. CONFORMANCE. Generic: C09_compatible_sound (if compat z accepts descriptor D against "
+    "schema S then the JSON emitted for EVERY inhabitant of D is Valid for S; z says whether plain ndarray fields may hold 0-d arrays; induction on "
     "fuel, unbounded over instances), C09_compatible_never_rejected, C09_validator_sound/_complete (the executable draft-04 validator decides "
     "the relation Valid), C09_inhabits_checker_sound, C09_strip_unique_weakens (removing uniqueItems only weakens a schema), "
     "C09_duplicate_free_enforced (converse checker enf: validity forces the uniqueItems-carrying lists to be duplicate-free), "
@@ -1617,19 +2101,39 @@ LEVEL_TEXT = (
     "run) reshape / take len(), plain TArr otherwise; C09_unguarded_array_fields pins the plain ones, C09_Molecule_0d_sites names the failing "
     "schema paths, C09_{Molecule,AtomicResultProperties,AtomicResult}_conforms_0d_exact (every instance, 0-d arrays admitted wherever no "
     "validator excludes them, conforms once the pinned fields are at least 1-d), C09_scalar_in_array_field_refuted (witnesses). "
-    "to_schema/from_schema index+unit core: C09_fragments_cover, C09_separators_roundtrip, C09_fragments_roundtrip, "
-    "C09_exported_geometry_in_bohr (unit branch from the AST), C09_schema_roundtrip_core. Tie: Gen/Schemas.v, Gen/FieldTypes.v (incl. the "
-    "shape-guard classification of validators), Gen/ToSchemaGen.v regenerated fail-closed; differential execution on instances of all six "
+    "TRANSLATION. Whole record (Model/SchemaTrans.v on C04's molrec / from_arrays model): C09_schema_roundtrip_full (EVERY molrec accepted by "
+    "from_arrays under from_schema's settings, stored in Bohr, >= 1 atom, separators >= 0: to_schema dtype 1 or 2 succeeds, from_schema accepts "
+    "the dictionary and returns the same molrec but for input_units_to_au; uses C04_idempotent), C09_schema_roundtrip_angstrom (the same for a molrec "
+    "stored in Angstrom, result = the molrec expressed in Bohr, for a Bohr-per-Angstrom factor >= 1: rescaled atoms stay apart), C09_schema_second_translation (the molrec that "
+    "came back exports the same dictionary), C09_roundtrip_negative_separators_refuted (the hypothesis is needed: finding "
+    "C09-negative-separators), C09_headers_recognised (whatever header to_schema writes for a dtype is recognised by from_schema's rules, both "
+    "generated), C09_schema_keys_inverse / C09_schema_keys_complete (key tables read from the two ASTs: each exported molrec key is read back "
+    "into the same from_arrays argument, nothing is read that is not written, required keys are written unconditionally), "
+    "C09_to_schema_exports_bohr, C09_to_schema_refuses_other_units (ValidationError), C09_from_schema_reads_bohr. Index+unit core (any units): "
+    "C09_fragments_cover, C09_separators_roundtrip, C09_fragments_roundtrip, C09_exported_geometry_in_bohr (unit branch from the AST), "
+    "C09_schema_roundtrip_core. Tie: Gen/Schemas.v, Gen/FieldTypes.v (incl. the shape-guard classification of validators), Gen/ToSchemaGen.v, "
+    "Gen/SchemaKeys.v regenerated fail-closed; differential execution on instances of all six "
     "models (inhabits descriptor with 0-d only at unguarded fields, modelled emission == emitted text, Gallina verdict == jsonschema verdict "
     "with and without uniqueItems, duplicate-free <-> fully valid), mutated documents, a scalar probe of every ndarray field, molrecs from "
-    "from_arrays with user masses/isotopes/ghosts through to_schema/from_schema on every field, np.split/cumsum core, unit factor; oracle on "
-    "the implementation (jsonschema; full-field round trips v1/v2 x np_out; re-validation keeps the hash; input kept; Bohr).")
+    "from_arrays with user masses/isotopes/ghosts through to_schema/from_schema on every field, whole molrecs through the record model of "
+    "to_schema x {1,2} x np_out and from_schema (stream trans), damaged schema dictionaries through from_schema with every error class "
+    "(ValidationError, NotAnElementError, KeyError, IndexError; stream damaged-schema, per-damage and per-outcome hit counts), np.split/cumsum "
+    "core, unit factor; oracle on the implementation (jsonschema; full-field round trips v1/v2 x np_out; re-validation keeps the hash; input "
+    "kept; Bohr).")
 LEVEL_NOTE = (
+    "Clause map: (A) emitted JSON of every valid instance validates - theorems for all six models (three full, three exactly 'iff "
+    "duplicate-free': known findings C09-uniqueitems, -ecp; 0-d arrays: known finding C09-scalar-array-0d); 'instances inhabit their "
+    "descriptors' and 'emitted text = emit' are correspondence. (B) schema round trip v1/v2 - C09_schema_roundtrip_full + "
+    "_second_translation for Bohr molrecs and C09_schema_roundtrip_angstrom for Angstrom molrecs at the whole-record level "
+    "(name/comment/provenance not carried; np_out is a representation choice, oracle only; the model computes in exact rationals, the "
+    "binary64 rounding of geom*factor is outside it); negative separators refuted (known finding C09-negative-separators). (C) Molecule rebuilt from its own dict equal with equal "
+    "hash - oracle on the implementation only (hashing is C11). (D) geometry exported in Bohr - theorems (unit branch and guard from the AST). "
     "Trusted: Coq kernel + vm_compute; the hand-written models of JSON Schema draft-04 (keyword subset; patterns = anchored literal "
-    "alternations with ECMA '$'), of pydantic.v1 emission (set fields, None dropped, ndarray flattened) and of the np.split/cumsum core; the "
-    "translator. Pydantic validation itself is modelled as 'instances inhabit their field descriptors' and is checked on every generated "
-    "instance, not proved; validators that only restrict values further do not affect the theorems. Round trips through from_arrays, "
-    "Molecule(**mol.dict()) equality/hash and the Bohr export of real molecules are oracles on the implementation (not theorems) beyond the "
-    "index/unit core (from_arrays is C04/C06). BasisSet-bearing models conform only when duplicate-free (known findings C09-uniqueitems, "
-    "C09-uniqueitems-ecp); 0-d arrays are possible exactly at the ndarray fields without a shape-guarding validator (read from the validators' source by a small AST classifier that treats anything it does not recognise as not guarding; pinned by C09_unguarded_array_fields; known finding C09-scalar-array-0d); the classifier and the per-field scalar probe that ties it to the code are trusted/tested, not proved. Not done in this wave: the round trip through the C04 from_arrays model (MolRec.v) and alias/exclude_unset emission as generated data (by_alias forcing is still a translator guard plus the emission differential). "
+    "alternations with ECMA '$'), of pydantic.v1 emission (set fields, None dropped, ndarray flattened), of to_schema/from_schema/contiguize "
+    "(record level) and C04's from_arrays model; the translator. Pydantic validation itself is modelled as 'instances inhabit their field "
+    "descriptors' and is checked on every generated instance, not proved; validators that only restrict values further do not affect the "
+    "theorems. BasisSet-bearing models conform only when duplicate-free; 0-d arrays are possible exactly at the ndarray fields without a "
+    "shape-guarding validator (read from the validators' source by a small AST classifier that treats anything it does not recognise as not "
+    "guarding; pinned by C09_unguarded_array_fields); the classifier and the per-field scalar probe that ties it to the code are "
+    "trusted/tested, not proved. by_alias/exclude_unset forcing in Molecule.dict() is a translator guard plus the emission differential. "
     "AtomicResultProperties.schema() declares no $schema; it is read as draft-04 (stricter on 'integer' than newer drafts). No axioms.")
